@@ -313,7 +313,7 @@ pub fn gen_bound(rng: &mut Rng, kind: i32) -> Option<(f64, f64)> {
             0 => None,
             1 => Some((0.0, 1.0)),
             2 => Some((0.0, 1.0)),
-            _ => *rng.pick(&[Some((0.0, 0.0)), Some((1.0, 1.0)), Some((-1.0, 2.0)), Some((0.0, 1.0))]),
+            _ => *rng.pick(&[Some((0.0, 0.0)), Some((1.0, 1.0)), Some((-1.0, 2.0)), Some((0.0, 1.0)), Some((0.0, -0.0)), Some((-0.0, 1.0))]),
         };
     }
     if rng.chance(1, 25) {
@@ -328,7 +328,8 @@ pub fn gen_bound(rng: &mut Rng, kind: i32) -> Option<(f64, f64)> {
         1 => Some((-inf, inf)),
         2 => Some((a, inf)),
         3 => Some((-inf, a)),
-        4 => Some((a, a)), // degenerate
+        // degenerate; at zero also with the signs of the two zeros mixed (0.0 <= -0.0 holds)
+        4 => Some(if a == 0.0 { *rng.pick(&[(0.0, 0.0), (0.0, -0.0), (-0.0, 0.0), (-0.0, -0.0)]) } else { (a, a) }),
         5 => Some((a + 0.125, a + w + 0.375)), // fractional
         _ => Some((a, a + w)),
     }
